@@ -78,7 +78,7 @@ theorem compile_atW (v : Variant) (cfg : Cfg) (call : Call) : atW (compile v cfg
   cases call <;> simp only [compile, sendData, closeBody, writeProg, checks] <;> (repeat' split) <;> simp [atW]
 
 theorem alt_atW (v : Variant) (a : Alt) : atW (altSteps v a) = false := by
-  cases a; simp only [altSteps, closeSocketProg]; split <;> simp [atW]
+  cases a <;> simp only [altSteps, closeSocketProg] <;> (try split) <;> simp [atW]
 
 theorem fresh_atW (v : Variant) (cfg : Cfg) (th : Thread) (h : th.cur = none) : atW (view v cfg th) = false := by
   rcases view_fresh v cfg th h with e | ⟨call, e⟩ <;> rw [e]
